@@ -83,6 +83,7 @@ class TextFileStorage(Storage[str]):
         self._file_paths = self._manager.list()
         self._file = None
         self._process_identifier = None
+        self._used_in_process_with_id = None  # the process that owns the identifier and the file handles
 
         self._index: List[Optional[Tuple[int, int]]] = self._manager.list()  # (process_identifier, file_offset)
         if number_of_data is not None:
@@ -104,10 +105,25 @@ class TextFileStorage(Storage[str]):
     def __exit__(self, exc_type, exc_val, exc_tb):
         self.close()
 
+    def _forget_state_of_parent_process(self):
+        """
+        When this object was already used by a process and a forked child inherits it, the child must not use the
+        identifier and the file handles of its parent. Each process writes to its own file and the inherited handles
+        share the position in file with the handles of the parent process.
+        """
+        pid = os.getpid()
+        if self._used_in_process_with_id != pid:
+            if self._used_in_process_with_id is not None:
+                self.close()
+                self._process_identifier = None
+            self._used_in_process_with_id = pid
+
     def open(self):
         """
         Opens storage for writing and assigns process identifier.
         """
+        self._forget_state_of_parent_process()
+
         if self.reader_only:
             # we are not writing
             return
@@ -241,6 +257,8 @@ class TextFileStorage(Storage[str]):
                 raise IndexError(f"There is no data stored under {global_identifier} identifier.")
 
             process_identifier, offset = index
+
+        self._forget_state_of_parent_process()
 
         if not self._is_file_open_for_read(process_identifier):
             self._open_file_for_read(process_identifier)
